@@ -31,12 +31,17 @@ def pipeline(ctx, replay=None):
         ctx.harness(hx, ["gen", str(ctx.seed), tier + "-short", short])
         ctx.harness(hx, ["gen", str(ctx.seed), tier + "-long", long_])
         files = [("tlc", stim, 6000 if tier == "quick" else 30000), ("random", short, 800 if tier == "quick" else 12000), ("long", long_, 1)]
-    for name, sf, per_jvm in files:
-        tr = os.path.join(ctx.work, "conv_trace_%s.ndjson" % name)
-        rej += ctx.run_stimuli(hx, sf, tr, "conv")
+    per = {f[0]: f[2] for f in files}
+    for name, prof, hxp, sf in kit.profile_runs(ctx, "hx_conv", files, replay, keep_quick=600):
+        if prof == "release" and name == "long" and tier == "quick":
+            continue                    # the long runs are executed by the release build in the thorough tier only
+        tr = os.path.join(ctx.work, "conv_trace_%s_%s.ndjson" % (name, prof))
+        r = ctx.run_stimuli(hxp, sf, tr, "conv")
         ctx.count_distinct(tr)
-        res = ctx.validate("Trace_Converter", tr, comp="conv", max_lines=per_jvm, jobs=8, timeout=2400)
-        rej += res["rejected"]
+        res = ctx.validate("Trace_Converter", tr, comp="conv", max_lines=per[name], jobs=8, timeout=2400)
+        for x in r + res["rejected"] + res["heap"]:
+            x["profile"] = prof
+        rej += r + res["rejected"]
         heap += res["heap"]
         os.remove(tr)
     return rej, heap
@@ -51,6 +56,7 @@ def c08(ctx, replay):
         "(every addition correctly rounded); it is literally the real sum of the ratios while nothing has rounded",
         "linear blend: exact where no evaluation order can round; otherwise |out - blend| <= 4 ulp of the format at "
         "scale 2*max(|l|,|r|) (floats) resp. < 1 LSB + 2^-20 (integer formats), and inside the hull up to that slack",
+        "both build profiles of the harness are executed (release: thinned in the quick tier)",
         "frame formats f64, f32, i16, u8, mono (bare sample) and stereo ([S; 2]); finite float samples only",
     ]
     rej, _ = pipeline(ctx, replay)
